@@ -28,10 +28,21 @@ def features(r):
 def run(tier: str, seed: int) -> int:
     n = 400 if tier == "quick" else 5000
     cases = gen_cases(PROP, n, seed, ["C04", "C02"], features, chain_frac=0.3, small_budgets=True)
+    # continuation runs: the objective is re-weighted by the update function at the moment the current stage has converged (projected
+    # gradient below the tolerance) — the report must speak of the objective as redefined, with which the run goes on
+    import random
+    for i in range(n // 5):
+        s = seed * 1_000_003 + 600_000 + i
+        r = random.Random(s)
+        gt = r.choice([1e-4, 1e-5, 1e-6])
+        cases.append({"seed": s, "monitors": ["C04", "C02"], "families": ["qp", "qp_softplus", "qp_quartic"], "small_budgets": False,
+                      "features": {"jac": "callable", "callback": r.choice(["none", "false"]), "ftarget": "none", "gtol_callable": False,
+                                   "scaler": "none", "update": "reweight", "consistent": True, "switch_at": 1, "trigger_pg": gt},
+                      "override": {"gtol": gt, "ftol": 0.0, "maxiter": r.choice([60, 200]), "maxfun": 15000, "maxls": 20}})
     return run_property(
         PROP, "harness.props.c04", THEOREMS, MODULES, cases, tier, seed,
         rule="random runs over the configuration lattice (maxiter from 0, maxfun from 1, maxls, ftol, gtol float/callable, "
-             "ftarget None/float/callable, stopping callbacks, scaler, identity update and objective redefinitions on the fly — rescaling, re-weighting — under a target); each replayed through the Lean shell "
+             "ftarget None/float/callable, stopping callbacks, scaler, identity update and objective redefinitions on the fly — rescaling, re-weighting — under a target, and continuation runs that re-weight the objective when the current stage has converged); each replayed through the Lean shell "
              "model bit for bit and cross-checked message-against-state; non-trivial = at least one iteration performed",
         assumptions=["objectives finite-valued on the box (no NaN)", "maxls >= 1"])
 
